@@ -83,6 +83,10 @@ GETF = {
     'beamPopulation': ('get_beam_population_rate', 'add_beam_population_rate', 'beamPopulation', 'beam-population'),
     'beamEmission': ('get_beam_emission_rate', 'add_beam_emission_rate', 'beamEmission', 'beam-emission'),
 }
+# families whose getters take the same kinds of arguments: a write to one is always checked against the others
+SIBLINGS = [['ionisation', 'recombination', 'linePower', 'continuumPower', 'cxPower'],
+            ['pecExcitation', 'pecRecombination', 'wavelength'],
+            ['beamStopping'], ['beamEmission', 'beamCx'], ['thermalCx', 'beamPopulation'], ['pecThermalCx']]
 PEC_CLASS = {'pecExcitation': 'excitation', 'pecRecombination': 'recombination'}
 INSTALLS = {v: k for k, v in repo_paths.INSTALL.items()}     # lean name -> python name
 
@@ -690,14 +694,56 @@ class History:
     def key_of(root, gfam, keyparts):
         return (root, gfam) + tuple(okey(o) for o in keyparts)
 
-    def track(self, root, gfam, keyparts):
+    def track(self, root, gfam, keyparts, siblings=True):
         gp = list(keyparts[:4]) if gfam == 'beamCx' else list(keyparts)
         if not gettable(gp):
-            return
-        self.tracked.setdefault(self.key_of(root, gfam, gp), (gfam, root, gp))
+            return []
+        new = []
+        fams = [gfam] + ([g for grp in SIBLINGS if gfam in grp for g in grp if g != gfam] if siblings else [])
+        for g in fams:
+            k = self.key_of(root, g, gp)
+            if k not in self.tracked:
+                self.tracked[k] = (g, root, gp)
+                new.append(k)
+        return new
+
+    def pre_read(self, world, root, tg):
+        """keys that become tracked by this call: what do they hold *before* it?  The oracle says nothing was ever
+        written to them.  If an earlier call of this history already failed, a stored value is an echo of that failure
+        (adopted); otherwise it is a failure of its own."""
+        from cherab.openadas import repository
+        for gfam, kp, _ in tg:
+            for k in self.track(root, gfam, kp):
+                g, kroot, gp = self.tracked[k]
+                st, res = real_get(repository, g, gp, world.path(kroot))
+                if self.judge(k, g, st, res) is None:
+                    continue
+                if self.failures:
+                    self.count('echo-of-earlier-failure-adopted')
+                    self.adopt(k, g, st, res)
+                else:
+                    self.failures.append(dict(signature='C06:history:untracked-key-holds-a-value', at=self.nops - 1,
+                                              description='%s(%s) returns a value although no call wrote that key' %
+                                              (GETF[g][0], ', '.join(str(okey(o)) for o in gp))))
+                    self.adopt(k, g, st, res)
+
+    def adopt(self, k, gfam, st, res):
+        if gfam == 'beamCx':
+            for kk in [kk for kk in list(self.oracle) + list(self.amb) if kk[:6] == k]:
+                self.oracle.pop(kk, None)
+                self.amb.pop(kk, None)
+            if st == 'ok':
+                for m, v in res.items():
+                    self.oracle[k + (m,)] = v
+        else:
+            self.amb.pop(k, None)
+            if st == 'ok':
+                self.oracle[k] = res['']
+            else:
+                self.oracle.pop(k, None)
 
     # ---- one operation -----------------------------------------------------------------------------------------------
-    def execute(self, world, op):
+    def execute(self, world, op, before_call=lambda tg: None):
         from cherab.openadas import repository, install
         root = op['root']
         rp = world.path(root)
@@ -710,6 +756,7 @@ class History:
             line = 'upd %s %s %s' % (ufam, root_tok(root), input_tok(ufam, nested))
             tg = [(g, kp, copy.deepcopy(r)) for g, kp, r in targets(ufam, nested)]
             f = getattr(repository, pyfn)
+            before_call(tg)
             status = _status(lambda: f(nested, rp) if op.get('positional') else f(nested, repository_path=rp))
         elif op['kind'] == 'add':
             gfam = op['fam']
@@ -728,6 +775,7 @@ class History:
                 args = add_call(gfam, objs, rate)
                 tg = [(gfam, kp, copy.deepcopy(rate))]
             f = getattr(repository, pyfn)
+            before_call(tg)
             status = _status(lambda: f(*args, repository_path=rp))
         elif op['kind'] == 'ins':
             fn = op['fn']
@@ -781,7 +829,7 @@ class History:
         self.nops += 1
         root = op['root']
         before = world.listing()
-        pyfn, status, line, tg = self.execute(world, op)
+        pyfn, status, line, tg = self.execute(world, op, before_call=lambda tg0: self.pre_read(world, root, tg0))
         self.count('op:' + pyfn)
         self.count('status:' + status)
         self.lines.append(line)
@@ -803,8 +851,13 @@ class History:
         # oracle update
         own = []
         for gfam, kp, rate in tg:
-            self.track(root, gfam, kp)
+            fresh = self.track(root, gfam, kp)
             k = self.key_of(root, gfam, kp)
+            if fresh and status != 'ok' and op['kind'] == 'ins' and gettable(list(kp[:4]) if gfam == 'beamCx' else list(kp)):
+                # a rejected front-end call addressing keys never observed before: their pre-state is unknown
+                for kf in fresh:
+                    g, kroot, gp = self.tracked[kf]
+                    self.adopt(kf, g, *real_get(repository, g, gp, world.path(kroot)))
             own.append(k)
             layout = UPD[GETF[gfam][2]]['rate']
             try:
@@ -843,21 +896,10 @@ class History:
         """after a reported failure the oracle adopts what the repository actually holds for the tracked keys, so that
         the rest of the history is judged on its own (a later discrepancy is a new failure, not an echo)"""
         from cherab.openadas import repository
-        for k, (gfam, kroot, gp) in self.tracked.items():
+        for k, (gfam, kroot, gp) in list(self.tracked.items()):
             st, res = real_get(repository, gfam, gp, world.path(kroot))
-            if gfam == 'beamCx':
-                for kk in [kk for kk in list(self.oracle) + list(self.amb) if kk[:6] == k]:
-                    self.oracle.pop(kk, None)
-                    self.amb.pop(kk, None)
-                if st == 'ok':
-                    for m, v in res.items():
-                        self.oracle[k + (m,)] = v
-            else:
-                self.amb.pop(k, None)
-                if st == 'ok':
-                    self.oracle[k] = res['']
-                else:
-                    self.oracle.pop(k, None)
+            self.adopt(k, gfam, st, res)
+
 
     # ---- S: verdict on one get ------------------------------------------------------------------------------------
     def allowed(self, k):
@@ -1237,7 +1279,7 @@ def shrink(facts, ops, probes, sig):
         changed = False
         for i in range(len(best) - 1):
             cand = best[:i] + best[i + 1:]
-            h = run_history(facts, cand, probes, stop_at_first=True)
+            h = run_history(facts, cand, probes)
             if any(f['signature'] == sig for f in h.failures):
                 best = cand
                 changed = True
@@ -1316,11 +1358,11 @@ def run(ctx):
     # S only: level strings containing the separator are outside what the model is tied on
     do('separator', SEPARATOR_HISTORY, [], sig_override='C06:encode_transition:separator-in-level-collides', model=False)
     # 2. random interleavings
-    n = ctx.n(150, 3000)
+    n = ctx.n(100, 2500)
     for i in range(n):
         default_root = i % 8 == 7
         ops, probes = gen_history(rng, rng.randint(5, 40), default_root=default_root)
-        do('random-%d' % i, ops, probes, max_other=12)
+        do('random-%d' % i, ops, probes, max_other=8)
 
     ctx.extra['seconds']['implementation'] = round(time.time() - t0, 1)
     t0 = time.time()
